@@ -29,20 +29,21 @@ fn families(property: &str) -> Vec<Fam> {
         // the fault family is included: the statement is about subscribers that *stay healthy* while
         // others may fail, be evicted and be replaced by new registrations
         // … and the shutdown family: a message accepted before the channel closes must still be delivered
-        "C01" => vec![("pubsub", "c01", None), ("pubsub", "c01", None), ("pubsub", "c08", None), ("pubsub", "c16", Some(C01_CORE)), ("pubsub", "firehose", Some(C01_CORE))],
+        "C01" => vec![("pubsub", "c01", None), ("pubsub", "c01", None), ("pubsub", "c08", None), ("pubsub", "c16", Some(C01_CORE)), ("pubsub", "firehose", Some(C01_CORE)), ("pubsub", "wide", Some(C01_CORE))],
         // replier bind/unbind interleaved with requests and replies is part of the quantifier
         "C02" => vec![("reqrep", "c02", None), ("reqrep", "c02", None), ("reqrep", "c10", Some(C02_CORE)), ("reqrep", "c08", Some(C02_CORE)), ("reqrep", "firehose", None)],
         // mass failures (a client with dozens of streams loses its connection) live in the burst family
-        "C08" => vec![("pubsub", "c08", None), ("reqrep", "c08", None), ("pubsub", "burst", None), ("reqrep", "burst", None)],
+        "C08" => vec![("pubsub", "c08", None), ("reqrep", "c08", None), ("pubsub", "burst", None), ("reqrep", "burst", None), ("pubsub", "wide", None)],
         // "all reachable router states" includes the states reached through faults and re-binding
-        "C09" => vec![("pubsub", "c09", None), ("reqrep", "c09", None), ("pubsub", "c09", None), ("reqrep", "c09", None), ("pubsub", "c08", Some(C09_CORE)), ("reqrep", "c08", Some(C09_CORE)), ("reqrep", "c10", Some(C09_CORE)), ("reqrep", "c11", Some(C09_CORE)), ("pubsub", "burst", None), ("reqrep", "burst", None), ("pubsub", "firehose", Some(C09_CORE)), ("reqrep", "firehose", Some(C09_CORE))],
+        "C09" => vec![("pubsub", "c09", None), ("reqrep", "c09", None), ("pubsub", "c09", None), ("reqrep", "c09", None), ("pubsub", "c08", Some(C09_CORE)), ("reqrep", "c08", Some(C09_CORE)), ("reqrep", "c10", Some(C09_CORE)), ("reqrep", "c11", Some(C09_CORE)), ("pubsub", "burst", None), ("reqrep", "burst", None), ("pubsub", "firehose", Some(C09_CORE)), ("reqrep", "firehose", Some(C09_CORE)), ("pubsub", "wide", Some(C09_CORE))],
         // late repliers and successors that arrive in the middle of a registration storm
         "C10" => vec![("reqrep", "c10", None), ("reqrep", "burst", Some(C10_STORM))],
         // "accepted and then silently abandoned" also covers repliers that race for a topic: each must end up
         // served or explicitly refused (binding oracle), whatever the other repliers' sinks do
         "C11" => vec![("pubsub", "c11", None), ("reqrep", "c11", None), ("reqrep", "c10", Some(C11_REBIND)), ("pubsub", "burst", Some(C11_STORM)), ("reqrep", "burst", Some(C11_STORM))],
-        // … and a shutdown that arrives in the middle of a busy scheduling step (firehose family: close while relaying)
-        "C16" => vec![("pubsub", "c16", None), ("reqrep", "c16", None), ("pubsub", "c16", None), ("reqrep", "c16", None), ("pubsub", "burst", None), ("reqrep", "burst", None), ("pubsub", "firehose", None)],
+        // … and a shutdown that arrives in the middle of a busy scheduling step (firehose family: close while relaying),
+        // or between two polls of a router that serves a very wide fan-out (wide family)
+        "C16" => vec![("pubsub", "c16", None), ("reqrep", "c16", None), ("pubsub", "c16", None), ("reqrep", "c16", None), ("pubsub", "burst", None), ("reqrep", "burst", None), ("pubsub", "firehose", None), ("pubsub", "wide", None)],
         _ => vec![],
     }
 }
@@ -165,8 +166,8 @@ fn main() {
                     break;
                 }
                 // heavy families (thousands of items or dozens of peers per run) get 1 run in 40
-                let heavy: Vec<&Fam> = fams.iter().filter(|f| matches!(f.1, "firehose" | "burst")).collect();
-                let light: Vec<&Fam> = fams.iter().filter(|f| !matches!(f.1, "firehose" | "burst")).collect();
+                let heavy: Vec<&Fam> = fams.iter().filter(|f| matches!(f.1, "firehose" | "burst" | "wide")).collect();
+                let light: Vec<&Fam> = fams.iter().filter(|f| !matches!(f.1, "firehose" | "burst" | "wide")).collect();
                 // (not under Miri: a firehose history would take hours to interpret)
                 let (engine, family, only) = if !heavy.is_empty() && i % 40 == 7 && !cfg!(miri) {
                     *heavy[((i / 40) % heavy.len() as u64) as usize]
